@@ -63,7 +63,7 @@ void dom_expr(void);
 void dom_buffmt(void);
 void dom_roundtrip(void);
 void dom_p01(void); void dom_p02(void); void dom_p04(void); void dom_p17(void); void dom_p05(void); void dom_p06(void); void dom_p08(void); void dom_p09(void); void dom_p09u(void); void dom_p21(void);
-void dir_p02(void); void dir_p05(void); void dir_p09(void); void dir_p06(void); void dom_pline(void); void dir_p02b(void); void dir_p09b(void); void dir_p02c(void); void dir_p09c(void);
+void dir_p02(void); void dir_p05(void); void dir_p09(void); void dir_p06(void); void dom_pline(void); void dir_p02b(void); void dir_p09b(void); void dir_p02c(void); void dir_p09c(void); void dir_p06big(void); void dom_p09ubig(void);
 void dom_replay(const char *line);
 
 #endif
